@@ -126,6 +126,32 @@ def Pred.fromParam (n : Name) : Pred
 /-- `P.ANY` -/
 def Pred.any : Pred := fun _ => true
 
+/-- `ExactOriginLSC(origin)`: `P[dict]`, `P[list]`, `P[int]`, `P[SomeModel]` -/
+def Pred.origin (o : Origin) : Pred
+  | l :: _ => l.ty.origin == o
+  | [] => false
+
+/-- `GenericParamLSC(pos)`: the last location is a `GenericParamLoc` with `generic_pos == pos`
+    (`LastLocChecker.check_loc_stack`: any other kind of location is refused) -/
+def Pred.genericPos (pos : Nat) : Pred
+  | l :: _ => l.kind == .genericParam && l.pos == pos
+  | [] => false
+
+/-- one element `generic_arg(pos, q)` of a pattern (`LocStackPattern.generic_arg`):
+    `GenericParamLSC(pos) & q` — the `pos`-th type argument of whatever the location below is
+    (key 0 / value 1 of a mapping, element 0 of an iterable, the wrapped type 0 of `Optional`) -/
+def Pred.genericArg (pos : Nat) (q : Pred) : Pred := fun st => Pred.genericPos pos st && q st
+
+/-- `LocStackEndChecker`: checker i from the end is applied to the stack without its last i elements
+    (`loc_stack.reversed_slice(i)`); the checkers are given **top first** here -/
+def Pred.endCheck : List Pred → LocStack → Bool
+  | [], _ => true
+  | p :: ps, st => p st && Pred.endCheck ps (st.drop 1)
+
+/-- a `LocStackPattern` with several elements, e.g. `P[dict].generic_arg(0, str)` =
+    `Pred.pattern [Pred.origin .dict, Pred.genericArg 0 (Pred.origin str)]` (bottom first, as written) -/
+def Pred.pattern (ps : List Pred) : Pred := fun st => decide (ps.length ≤ st.length) && Pred.endCheck ps.reverse st
+
 /-! ### Shapes -/
 
 inductive ParamKind where
